@@ -313,11 +313,17 @@ def run_composition(case, location, limit):
         k = (t - EPOCH) // day
         return payload_of(case, [float((k * (c + 2)) % 7 - 3) for c in range(nc)], dshape)
 
-    log, seen = [], []
+    log, seen, outside, slots = [], [], [], []
+    cwd0 = set(os.listdir(os.getcwd()))
 
     def cb(inp, t):
         log.append(canon_value(inp["In"]))
         seen.append(sorted(os.listdir(location)) if os.path.isdir(location) else [])
+        for slot in slots:  # every buffered file name must lie directly below the configured location
+            for _t, d in slot.data:
+                if isinstance(d, str) and os.path.dirname(os.path.abspath(d)) != os.path.abspath(location):
+                    outside.append(d)
+        outside.extend(sorted(set(os.listdir(os.getcwd())) - cwd0))
         return {}
 
     src = fm.components.CallbackGenerator(
@@ -327,17 +333,22 @@ def run_composition(case, location, limit):
         start=EPOCH, step=td(case["cons_step_h"] * 3_600_000_000))
     comp = fm.Composition([src, cons], print_log=False, log_level=logging.CRITICAL,
                           slot_memory_limit=limit, slot_memory_location=location)
+    slots.append(src.outputs["Out"])
     if case["kind"] == "output":
         src.outputs["Out"] >> cons.inputs["In"]
     else:
-        src.outputs["Out"] >> make_adapter(case) >> cons.inputs["In"]
+        a = make_adapter(case)
+        slots.append(a)
+        src.outputs["Out"] >> a >> cons.inputs["In"]
     err = None
     try:
         comp.run(end_time=EPOCH + case["days"] * day)
     except Exception as e:  # noqa
         err = {"err": err_class(e), "msg": f"{type(e).__name__}: {str(e)[:120]}"}
     left = sorted(os.listdir(location)) if os.path.isdir(location) else []
-    return {"log": log, "err": err, "left": left, "max_files": max([len(s) for s in seen] + [0])}
+    outside.extend(sorted(set(os.listdir(os.getcwd())) - cwd0))
+    return {"log": log, "err": err, "left": left, "max_files": max([len(s) for s in seen] + [0]),
+            "outside": sorted(set(outside))}
 
 
 def comp_oracle(case, location):
@@ -349,6 +360,9 @@ def comp_oracle(case, location):
                 {"limit": case["limit"], "error_with_limit": a["err"], "error_without": b["err"], "first_difference": first,
                  "with_limit": a["log"][first] if first is not None and first < len(a["log"]) else None,
                  "without_limit": b["log"][first] if first is not None and first < len(b["log"]) else None}), a
+    if a["outside"]:
+        return ("spill files are created only below slot_memory_location",
+                {"outside_location": a["outside"][:5], "limit": case["limit"]}), a
     if a["left"]:
         return ("after the composition has been finalised no spill file remains below slot_memory_location",
                 {"left_behind": a["left"], "limit": case["limit"]}), a
